@@ -279,3 +279,21 @@ Example stale_q_accepts : sched_accepts (mk_sched [SHeaders acc1] [] [] [SData o
 Proof.
   split; [exists acc1 | exists out3]; (split; [cbn; tauto|]); [exact accepts_at_once | exact accepts_after_outage].
 Qed.
+
+(* REFINEMENT FROM TRANSLATED CODE.  The refusal test of [limit_check] is the test Manager.publishBlockInternal
+   makes — the Go function itself, translated from /repo's source on every run and evaluated by Model/GoLite.v
+   (Check/GoLitePublish.v): for ALL limits, watermarks and backlogs the two agree, and a refused attempt returns nil
+   having called NOTHING — not the store, not the sequencing layer, not the executor. *)
+From Verif Require Proofs.GoLitePublishRefine.
+Theorem C08_refusal_test_is_the_codes_full : forall (c : cfg) (s : state),
+  fst (limit_check c s) =
+  GoLitePublishRefine.refused4 (c_limit c) (sub64 (t_height s) (t_wh s)) (sub64 (t_height s) (t_wd s)) (fst (num_waiting s)).
+Proof. exact GoLitePublishRefine.refused_is_limit_check. Qed.
+Print Assumptions C08_refusal_test_is_the_codes_full.
+
+Theorem C08_translated_refusal_calls_nothing_full : forall w,
+  Check.GoLitePublish.wf w -> Check.GoLitePublish.w_cancel w = false -> Check.GoLitePublish.refused w = true ->
+  exists o, Check.GoLitePublish.run_publish w = Some o /\ Check.GoLitePublish.o_calls o = [] /\
+            GoLitePublishRefine.nil_result o = true.
+Proof. exact GoLitePublishRefine.translated_publish_refused. Qed.
+Print Assumptions C08_translated_refusal_calls_nothing_full.
